@@ -1,6 +1,6 @@
 # Per-property claims; exec'd by gen_manifest.py (claim(id, technique, text, note, design_ref)).
 PENDING = "check not built yet in this framework (DESIGN.md §8 build order); no verdict is claimed until its rule set runs clean both ways"
-for _p in ["C01","C02","C03","C04","C05","C06","C07","C08","C09","C11","C12","C13","C14","C15","C16","C17","C18","C19","C20"]:
+for _p in ["C01","C02","C03","C04","C05","C06","C07","C08","C11","C12","C13","C14","C15","C16","C17","C18","C19","C20"]:
     NOT_APPLICABLE[_p] = PENDING
 
 claim("C10",
@@ -8,3 +8,9 @@ claim("C10",
   "Every size lookup (4 map literals, switches, methods, helper functions — discovered, not named) is extracted statically as a total function of the type code and compared with the frozen I2P 0.9.67 table and with its siblings on all 65,536 codes; type-code validators' accept sets are compared the same way. This decides the table-agreement clause of the property for every code, which no finite test list does. It does not decide where key bytes land for arbitrary key material.",
   "Trusted: go/types constant folding, go/ssa, the spec table in checker/internal/rules/spec.go. Lookups are recognised by behaviour (>=3 codes mapped to constants, >=70% agreement with one spec column); a function that resembles a table but matches none is reported as undecided, not skipped.",
   "DESIGN.md §5 C10")
+
+claim("C09",
+  "construction-site enumeration + dominance/edge-cut reachability on SSA CFG; validator reject regions by interval partitioning, exhaustive over 16-bit codes",
+  "Every place in the library where a Destination or RouterIdentity receives a non-nil KeysAndCert is enumerated from the SSA program (not from examples), and each must be behind the success edge of a checked key-type validator on that same value, or derive from an identity whose prohibited sets are a superset. The validators' reject regions are extracted as functions of the type codes and compared with the specification sets on all 65,536 codes (equality, so permitted types are never rejected). This covers every API path at once, which is what the tests cannot enumerate.",
+  "Trusted: go/ssa; values assembled by callers through the exported embedded field are out of scope. The validator is evaluated under the assumption that KeysAndCert and KeyCertificate are non-nil.",
+  "DESIGN.md §5 C09")
